@@ -176,7 +176,8 @@ def _preimport():
 def ENCODE(case):
     _preimport()
     jt, ft = tables(case)
-    return core.enc_line(list(case[:4]) + [jt, ft] + list(case[6:]))
+    # case[7] (WSGI only: how the gateway frames the body, see impl_wsgi) is not the model's business
+    return core.enc_line(list(case[:4]) + [jt, ft] + list(case[6:7]))
 
 
 def shapes(x):
@@ -342,6 +343,8 @@ def cases(tier, rng):
                     if n > 3 and (pi + k) % 2:
                         continue
                     yield "wsgi-exhaustive", mk_wsgi(cti, pieces, accs)
+                    if n <= 2 or (pi + k) % 3 == 0:
+                        yield "wsgi-exhaustive-chunked", mk_wsgi(cti, pieces, accs) + [1 + (pi + k) % 2]
     for _ in range(5000 if tier == "quick" else 50000):
         cls = rng.randrange(3)
         cti = rng.choice(cti_of[cls])
@@ -351,7 +354,7 @@ def cases(tier, rng):
             pieces = [body] if body else []
         accs = [[a[0], a[1], rng.choice([1, 2, 3, 5, 65536])] for a in
                 (rng.choice(ALPHA + [[PART, 0], [PART, 3]]) for _ in range(rng.randrange(1, 7)))]
-        yield "wsgi-random", mk_wsgi(cti, pieces, accs)
+        yield "wsgi-random", mk_wsgi(cti, pieces, accs) + ([rng.choice([1, 2])] if rng.random() < 0.3 else [])
 
 
 def search_cases(tier, rng, mism):
@@ -524,6 +527,17 @@ def impl_wsgi(case):
     env = {"REQUEST_METHOD": "POST", "SCRIPT_NAME": "", "PATH_INFO": "/", "QUERY_STRING": "", "SERVER_NAME": "t",
            "SERVER_PORT": "80", "SERVER_PROTOCOL": "HTTP/1.1", "wsgi.version": (1, 0), "wsgi.url_scheme": "http",
            "wsgi.input": inp, "CONTENT_LENGTH": str(sum(len(p) for p in pieces))}
+    # how the gateway frames the body: 0 Content-Length (the default), 1 chunked transfer coding (no CONTENT_LENGTH;
+    # the gateway de-chunks and ends wsgi.input itself: gunicorn, mod_wsgi, waitress), 2 CONTENT_LENGTH present but ""
+    # (CGI-style gateways for a request without the header).  The body is what wsgi.input delivers in every case.
+    framing = case[7] if len(case) > 7 else 0
+    if framing == 1:
+        del env["CONTENT_LENGTH"]
+        env["HTTP_TRANSFER_ENCODING"] = "chunked"
+        env["wsgi.input_terminated"] = True
+    elif framing == 2:
+        env["CONTENT_LENGTH"] = ""
+        env["wsgi.input_terminated"] = True
     if ctv:
         env["CONTENT_TYPE"] = ctv
     req = Request(env)
@@ -796,9 +810,9 @@ def shrink(case):
                 yield mk_asgi(cti, xs[:i] + [[m[0], m[1], m[2], 0]] + xs[i + 1:], steps)
     else:
         for i in range(len(steps)):
-            yield mk_wsgi(cti, xs, steps[:i] + steps[i + 1:])
+            yield mk_wsgi(cti, xs, steps[:i] + steps[i + 1:]) + list(case[7:])
         for i in range(len(xs)):
-            yield mk_wsgi(cti, xs[:i] + xs[i + 1:], steps)
+            yield mk_wsgi(cti, xs[:i] + xs[i + 1:], steps) + list(case[7:])
 
 
 if __name__ == "__main__":
